@@ -4,7 +4,10 @@ Shape: history + executable reference model (mon.oracles.ledger), observed at th
 property (arm_to_expectation / success / fail counts) after *every* call and at predict_expectations();
 randomised outputs are checked by replaying the documented sampler on a clone of the bandit's generator,
 with a 6-sigma moment test as the arbiter when the replay disagrees (a change of draw order alone is not
-a violation of the property)."""
+a violation of the property).
+
+As built: Workload extras: 1-19 arms, n_jobs in {1,2,3,-1} (threads), reward magnitudes 2^-40..2^40 and near-equal values (one class per history), arm changes before the first fit.
+"""
 from mon import env  # noqa: F401
 import copy
 import math
